@@ -167,14 +167,11 @@ def lag (c : DR) (fuel : Nat) (d : Int) (days : Int) (settlement : Bool) : Outco
       | .err => .panic "lag:unwrap"
       | o => o
 
-/-- `add_days` as implemented: `-days` is computed in `i8`, which overflows for `days = -128`
-(panic in debug builds and in release builds with overflow checks; wraps to -128 otherwise and
-then `u64::try_from` fails ⇒ panic either way). -/
+/-- `add_days`: `date ∓ Days::new(days.unsigned_abs())`, then `roll`.  (Before the repair recorded in
+known_findings.json the code negated the `i8` and panicked for `days = -128`.) -/
 def addDays (c : DR) (fuel : Nat) (d : Int) (days : Int) (m : Modifier) (settlement : Bool) :
     Outcome (Option Int) :=
-  if days < 0 then
-    if i8ok (-days) then .ok (c.roll fuel (d - (-days)) m settlement)
-    else .panic "add_days:neg"
+  if days < 0 then .ok (c.roll fuel (d - (days.natAbs : Int)) m settlement)
   else .ok (c.roll fuel (d + days) m settlement)
 
 /-- `bus_date_range`: loop `while sample <= end { push; sample = add_bus_days(sample, 1) }`. -/
@@ -239,8 +236,18 @@ end Rateslib
 namespace Rateslib
 
 /-- `parse_cals`: split on ',' and look every part up in the table of built-in calendars. -/
+def lookupAll (table : String → Option Cal) : List String → Option (List Cal)
+  | [] => some []
+  | n :: ns =>
+    match table n with
+    | none => none
+    | some c =>
+      match lookupAll table ns with
+      | none => none
+      | some cs => some (c :: cs)
+
 def parseCals (table : String → Option Cal) (s : String) : Option (List Cal) :=
-  (s.splitOn ",").mapM table
+  lookupAll table (s.splitOn ",")
 
 /-- `NamedCal::try_new` (calendar.rs:116-144).  Rust's Unicode `to_lowercase` is modelled as
 ASCII lower-casing.  Returns the stored (lower-cased) name and the union calendar. -/
